@@ -100,6 +100,19 @@ def build_checked(h, p, part):
         return None
 
 
+_PTS = {}
+
+
+def _other_points(h, p):
+    pts = _PTS.get(h.name)
+    if pts is None:
+        pts = _PTS[h.name] = list(h.points('quick'))
+    if not pts:
+        return []
+    c = __import__('zlib').crc32(repr(sorted(p.items(), key=lambda kv: kv[0])).encode())
+    return [pts[-1], pts[(c // 3) % len(pts)], pts[len(pts) // 2 + (c // 7) % (len(pts) - len(pts) // 2)]]
+
+
 def check_point(h, p, alg, part):
     part.counts['instances'] += 1
     F = build_checked(h, p, part)
@@ -123,6 +136,25 @@ def check_point(h, p, alg, part):
         part.counts['rebuilt_twice'] += 1
         if not same:
             part.case(h.name, 'second_call_differs', p, 'calling the generator a second time with the same arguments gives a different formula')
+            return
+    if getattr(h, 'deterministic', True) and __import__('zlib').crc32(repr(sorted(p.items(), key=lambda kv: kv[0])).encode()) % 3 == 1:
+        # the same call again after calls with OTHER arguments (the last point of the box and one chosen by hash)
+        qs = _other_points(h, p)
+        for q in qs:
+            try:
+                h.build(q)
+            except Exception:  # noqa
+                pass
+        try:
+            F3 = h.build(p)
+            same = (F3.number_of_variables() == n and rows_of(F3) == rows and
+                    list(F3.all_variable_labels()) == list(F.all_variable_labels()))
+        except Exception as e:  # noqa
+            same = False
+        part.counts['rebuilt_after_other_calls'] += 1
+        if not same:
+            part.case(h.name, 'call_after_other_calls_differs', dict(p, _after=qs),
+                      'the generator gives a different formula for the same arguments once it has been called with other arguments')
             return
     bad = [l for l in literals_of(F) if not isinstance(l, int) or isinstance(l, bool) or l == 0 or abs(l) > n]
     if bad:
@@ -323,14 +355,24 @@ def _schema_verdict(alg, schemas, rows, opb, n, part, ckey):
     return None
 
 
+_HISTORY = []   # every (harness, point) built so far in this process
+
+
 def shard_fn(items, part):
     alg = Z3Alg()
     for name, p in items:
         h = REGISTRY[name]
         if h.funcs:
             part.encoded(*h.funcs)
+        before = len(part.cases)
         try:
             check_point(h, p, alg, part)
+            for c in part.cases[before:]:
+                # the calls this process made earlier: replay tries a fresh process first and, if the
+                # behaviour does not show there, repeats these calls first (state kept between calls)
+                if sum(1 for d in part.cases if d['harness'] == c['harness'] and d['kind'] == c['kind']) <= 4:
+                    c['history'] = [[a, b] for a, b in _HISTORY]
+            _HISTORY.append((name, p))
         except Exception as e:  # noqa
             import traceback
             part.errors.append('%s %s: checker exception %s: %s | %s' % (name, p, type(e).__name__, e, traceback.format_exc()[-800:]))
@@ -339,7 +381,24 @@ def shard_fn(items, part):
 # ------------------------------------------------------------------ replay
 
 def replay(case):
-    """Concrete re-evaluation in a solver-free process.  Returns (reproduced, message)."""
+    """Concrete re-evaluation in a solver-free process.  Returns (reproduced, message).
+    First in a fresh process; if the behaviour does not show there and the case carries the list of generator
+    calls its shard had made before, after repeating those calls (a history of calls in one process)."""
+    ok, msg = _replay_once(case)
+    if ok or not case.get('history'):
+        return ok, msg
+    for name, q in case['history']:
+        try:
+            REGISTRY[name].build(q)
+        except Exception:  # noqa
+            pass
+    ok, msg = _replay_once(case)
+    if ok:
+        msg = 'only after the %d generator calls made earlier in the same process (state kept between calls): %s' % (len(case['history']), msg)
+    return ok, msg
+
+
+def _replay_once(case):
     h = REGISTRY[case['harness']]
     inp = dict(case['input'])
     p = {k: v for k, v in inp.items() if not k.startswith('_')}
@@ -374,6 +433,15 @@ def replay(case):
             F3 = h.build(p)
             diff = not (F3.number_of_variables() == n and rows_of(F3) == rows and list(F3.all_variable_labels()) == list(F.all_variable_labels()))
         return diff, 'two calls with the same arguments differ: %s' % diff
+    if kind == 'call_after_other_calls_differs':
+        for q in inp['_after']:
+            try:
+                h.build(q)
+            except Exception:  # noqa
+                pass
+        F3 = h.build(p)
+        diff = not (F3.number_of_variables() == n and rows_of(F3) == rows and list(F3.all_variable_labels()) == list(F.all_variable_labels()))
+        return diff, 'first call and the call after %d other calls differ: %s' % (len(inp['_after']), diff)
     if kind == 'literal_out_of_range':
         bad = [l for l in literals_of(F) if not isinstance(l, int) or l == 0 or abs(l) > n]
         return bool(bad), 'literals %s, n=%d' % (bad[:5], n)
